@@ -202,12 +202,22 @@ Inductive rq_noise :=
 | RComment (lead text : bytes)
 | ROption (text : bytes).          (* rendered as "-" ++ text *)
 
-Record rq_rlay := { rl_before : list (rq_noise * eol); rl_lead : bytes; rl_ws1 : bytes; rl_ws2 : bytes; rl_trail : bytes; rl_eol : eol }.
-Definition rq_rlay_default : rq_rlay := {| rl_before := []; rl_lead := []; rl_ws1 := []; rl_ws2 := []; rl_trail := []; rl_eol := LF |}.
+(* rl_cont = Some (e, ws): the requirement is continued with a backslash after the "==" (and the blanks rl_ws2): the
+   first physical line ends in "\" with line ending e, the second one starts with the blanks ws *)
+Record rq_rlay := { rl_before : list (rq_noise * eol); rl_lead : bytes; rl_ws1 : bytes; rl_ws2 : bytes; rl_trail : bytes; rl_eol : eol;
+                    rl_cont : option (eol * bytes) }.
+Definition rq_rlay_default : rq_rlay := {| rl_before := []; rl_lead := []; rl_ws1 := []; rl_ws2 := []; rl_trail := []; rl_eol := LF; rl_cont := None |}.
 Record rq_layout := { ry_recs : list rq_rlay; ry_after : list (rq_noise * eol); ry_final_nl : bool }.
 
 Definition rq_line (r : rq_rec) (y : rq_rlay) : bytes :=
   rl_lead y ++ rq_name r ++ rl_ws1 y ++ s_eq2 ++ rl_ws2 y ++ rq_version r ++ rl_trail y.
+(* the physical line(s) of one requirement *)
+Definition rq_head (r : rq_rec) (y : rq_rlay) : bytes := rl_lead y ++ rq_name r ++ rl_ws1 y ++ s_eq2 ++ rl_ws2 y.
+Definition rq_phys_lines (r : rq_rec) (y : rq_rlay) : list (bytes * eol) :=
+  match rl_cont y with
+  | None => [(rq_line r y, rl_eol y)]
+  | Some (e, ws) => [(rq_head r y ++ [BSLASH], e); (ws ++ rq_version r ++ rl_trail y, rl_eol y)]
+  end.
 Definition rq_noise_content (n : rq_noise) : bytes :=
   match n with
   | RBlank ws => ws
@@ -221,7 +231,7 @@ Fixpoint rq_recs_lines (rs : list rq_rec) (ys : list rq_rlay) : list (bytes * eo
   | [] => []
   | r :: rs' =>
       let y := hd rq_rlay_default ys in
-      rq_noise_lines (rl_before y) ++ (rq_line r y, rl_eol y) :: rq_recs_lines rs' (tl ys)
+      rq_noise_lines (rl_before y) ++ rq_phys_lines r y ++ rq_recs_lines rs' (tl ys)
   end.
 Definition rq_file_lines (rs : list rq_rec) (l : rq_layout) : list (bytes * eol) :=
   rq_recs_lines rs (ry_recs l) ++ rq_noise_lines (ry_after l).
@@ -252,7 +262,8 @@ Definition wf_rq_noise (n : rq_noise) : bool :=
   end.
 Definition wf_rq_rlay (y : rq_rlay) : bool :=
   forallb (fun ne => wf_rq_noise (fst ne)) (rl_before y) &&
-  all_blank (rl_lead y) && all_blank (rl_ws1 y) && all_blank (rl_ws2 y) && all_blank (rl_trail y).
+  all_blank (rl_lead y) && all_blank (rl_ws1 y) && all_blank (rl_ws2 y) && all_blank (rl_trail y) &&
+  match rl_cont y with Some (_, ws) => all_blank ws | None => true end.
 Definition wf_rq_layout (rs : list rq_rec) (l : rq_layout) : bool :=
   forallb wf_rq_rlay (ry_recs l) && forallb (fun ne => wf_rq_noise (fst ne)) (ry_after l) &&
   forallb (fun le => len_N (fst le) + 1 <? max_token) (rq_file_lines rs l) &&
